@@ -11,6 +11,7 @@ import (
 	"golang.org/x/crypto/openpgp"
 	"golang.org/x/crypto/openpgp/packet"
 	_ "golang.org/x/crypto/ripemd160" // makes crypto.RIPEMD160 available to the package under test
+	"verif/ref/pgpfmt"
 )
 
 // gpg batch key generation: every key type the package can read. ECDH and
@@ -74,6 +75,11 @@ type key struct {
 	signAlgo string // RSA, DSA, ECDSA (primary key)
 	encAlgo  string // RSA, ELG
 	minHash  int    // smallest digest size in bits gpg accepts for signatures of this key (DSA q / curve size), 0 = any
+	// tainted: an RSA key made here whose SerializePrivate output (the form gpg
+	// imported) has p > q, against RFC 4880 §5.5.3; gpg's CRT then miscomputes a
+	// fraction of its private-key operations with this key.
+	tainted  bool
+	exported []byte // SerializePrivate output (go-made keys)
 }
 
 func (k *key) email() string { return strings.ToLower(k.name) + "@example.com" }
@@ -147,11 +153,19 @@ func newKeyset() (*keyset, error) {
 			g.close()
 			return nil, fmt.Errorf("NewEntity %s: %v", s.name, err)
 		}
-		if err := e.SerializePrivate(&goSec, s.cfg); err != nil {
+		var one bytes.Buffer
+		if err := e.SerializePrivate(&one, s.cfg); err != nil {
 			g.close()
 			return nil, fmt.Errorf("SerializePrivate %s: %v", s.name, err)
 		}
-		ks.keys = append(ks.keys, &key{name: s.name, origin: "go", ent: e, signAlgo: "RSA", encAlgo: "RSA"})
+		goSec.Write(one.Bytes())
+		k := &key{name: s.name, origin: "go", ent: e, signAlgo: "RSA", encAlgo: "RSA", exported: one.Bytes()}
+		for _, issue := range secretKeyIssues(one.Bytes()) {
+			if strings.Contains(issue, "p >= q") {
+				k.tainted = true
+			}
+		}
+		ks.keys = append(ks.keys, k)
 	}
 	if r = g.run(tGpgOps, goSec.Bytes(), "--import"); r.rc != 0 {
 		return fail("gpg --import of NewEntity keys", r)
@@ -226,6 +240,31 @@ func newKeyset() (*keyset, error) {
 }
 
 func (ks *keyset) close() { ks.g.close() }
+
+// secretKeyIssues parses every RSA secret (sub)key packet of a transferable
+// secret key with the reference parser and lists the RFC 4880 §5.5.3
+// requirements that do not hold ("packet N: p >= q", …).
+func secretKeyIssues(tsk []byte) []string {
+	pkts, err := pgpfmt.Walk(tsk)
+	if err != nil {
+		return []string{"walk: " + err.Error()}
+	}
+	var out []string
+	for i, p := range pkts {
+		if p.Tag != 5 && p.Tag != 7 {
+			continue
+		}
+		k, err := pgpfmt.ParseRSASecretKey(p.Body)
+		if err != nil {
+			out = append(out, fmt.Sprintf("packet %d (tag %d): %v", i, p.Tag, err))
+			continue
+		}
+		for _, c := range k.Check() {
+			out = append(out, fmt.Sprintf("packet %d (tag %d): %s", i, p.Tag, c))
+		}
+	}
+	return out
+}
 
 // pubRingWith returns a keyring holding the public half of signer plus the
 // private keys of the given recipients (what a reader would have).
